@@ -16,6 +16,7 @@ import (
 	"strconv"
 	"strings"
 	"sync"
+	"syscall"
 	"time"
 
 	"github.com/Jigsaw-Code/outline-sdk/transport"
@@ -193,6 +194,7 @@ type cconn struct {
 	hasBadSent                                bool
 	cancelled                                 bool
 	slow                                      bool
+	refuseFd                                  int
 }
 
 type mapDialer struct {
@@ -281,14 +283,21 @@ func setupKeys(rng *rand.Rand, idx int, beh behaviour, opt options) (int, []keyI
 	return nk, keys, klist, replayOn
 }
 
-func closedPort() string {
-	ln, err := net.Listen("tcp", "127.0.0.1:0")
+// refusingPort: a loopback port on which connect() is refused for as long as the returned descriptor stays open (a socket
+// that is bound but never listens; the port cannot be handed to another listener meanwhile)
+func refusingPort() (string, int) {
+	fd, err := syscall.Socket(syscall.AF_INET, syscall.SOCK_STREAM, 0)
 	if err != nil {
 		panic(err)
 	}
-	a := ln.Addr().String()
-	ln.Close()
-	return a
+	if err := syscall.Bind(fd, &syscall.SockaddrInet4{Addr: [4]byte{127, 0, 0, 1}}); err != nil {
+		panic(err)
+	}
+	sa, err := syscall.Getsockname(fd)
+	if err != nil {
+		panic(err)
+	}
+	return fmt.Sprintf("127.0.0.1:%d", sa.(*syscall.SockaddrInet4).Port), fd
 }
 
 func runBehaviour(idx int, beh behaviour, opt options) ([]*caseRec, *behRec) {
@@ -395,8 +404,11 @@ func runBehaviour(idx int, beh behaviour, opt options) ([]*caseRec, *behRec) {
 		var req string
 		switch sc.Tk {
 		case "deny":
-			req = []string{"10.%d.0.1:80", "127.0.0.%d:81", "192.168.%d.7:443", "[fd00::%d]:80", "169.254.%d.1:80", "[fe80::%d]:80", "100.64.%d.1:80", "224.0.0.%d:80"}[rng.Intn(8)]
-			req = fmt.Sprintf(req, c+idx%200+1)
+			x, y := c%250+1, (c/250+idx)%250+1
+			req = []string{
+				fmt.Sprintf("10.%d.%d.1:80", y, x), fmt.Sprintf("127.0.%d.%d:81", y, x), fmt.Sprintf("192.168.%d.%d:443", y, x),
+				fmt.Sprintf("[fd00::%x:%x]:80", y, x), fmt.Sprintf("169.254.%d.%d:80", y, x), fmt.Sprintf("[fe80::%x:%x]:80", y, x),
+				fmt.Sprintf("100.64.%d.%d:80", y, x), fmt.Sprintf("224.0.%d.%d:80", y, x)}[rng.Intn(8)]
 			h, _, _ := net.SplitHostPort(req)
 			if net.ParseIP(h).To4() != nil {
 				atyp = 1
@@ -406,7 +418,7 @@ func runBehaviour(idx int, beh behaviour, opt options) ([]*caseRec, *behRec) {
 		default:
 			switch atyp {
 			case 1:
-				req = fmt.Sprintf("192.0.2.%d:%d", 10+c, 8000+idx%1000)
+				req = fmt.Sprintf("192.0.2.%d:%d", c%250+1, 8000+(idx*7+c)%50000)
 			case 3:
 				req = fmt.Sprintf("target-%d-%d.example.test:%d", idx, c, 443)
 			case 4:
@@ -434,7 +446,7 @@ func runBehaviour(idx int, beh behaviour, opt options) ([]*caseRec, *behRec) {
 			}
 			go targetAccept(b, cc)
 		case "refuse":
-			cc.plan.Variant = closedPort()
+			cc.plan.Variant, cc.refuseFd = refusingPort()
 		}
 		dialer.targets[req] = cc
 		conns[c] = cc
@@ -743,6 +755,9 @@ func runBehaviour(idx int, beh behaviour, opt options) ([]*caseRec, *behRec) {
 		}
 		if cc.tln != nil {
 			cc.tln.Close()
+		}
+		if cc.refuseFd > 0 {
+			syscall.Close(cc.refuseFd)
 		}
 		b.mu.Lock()
 		tc := cc.tconn
